@@ -185,7 +185,29 @@ def c_sbrg(ctx, args):
     return None
 
 
-CHECKS = {'diag_kernels': c_diag_kernels, 'diag_pauli': c_diag_pauli, 'diag_state': c_diag_state, 'sbrg': c_sbrg}
+def c_diag_fresh(ctx, args):
+    """the circuit returned by diagonalize is the caller's: extending it (circuits are builders) does not show in the circuit a LATER call returns for the same operator"""
+    be, a, i0, causal = args
+    if be == 'np':
+        M, lib = NP, pc
+    else:
+        import torchclifford as tc, vlib.impl_torch as TT
+        M, lib = TT, tc
+    n = len(a[0]) // 2
+    probe = [[r[0], 0] for r in gen.identity_rows(n)] + [[list(a[0]), a[1] % 4]]
+    c1 = lib.diagonalize(M.P(a), i0, causal=causal)
+    ref = M.oPL(c1.forward(M.PL(probe)))
+    rr = __import__('random').Random(i0 + n)
+    for _ in range(2):
+        c1.take(M.mk_gate(gen.rgate(rr, ctx.model, n, kinds=('gen',))))
+    c2 = lib.diagonalize(M.P([a[0], (a[1] + 2) % 4]), i0, causal=causal)          # the same string (either sign) again
+    got = M.oPL(c2.forward(M.PL(probe)))
+    if got != ref:
+        return {'kind': 'oracle', 'where': be + ':diagonalize handed out a circuit that an earlier caller had extended', 'observed': got, 'expected': ref, 'tags': ['diag_fresh', be]}
+    return None
+
+
+CHECKS = {'diag_fresh': c_diag_fresh, 'diag_kernels': c_diag_kernels, 'diag_pauli': c_diag_pauli, 'diag_state': c_diag_state, 'sbrg': c_sbrg}
 
 
 def run(ctx):
@@ -217,6 +239,9 @@ def run(ctx):
         be = 'np' if rng.random() < 0.8 else 'torch'
         do(ctx, 'diag_kernels', [be, g1, g2 if acq == 1 else None, i0], nontrivial=(be, 'k', it))
         do(ctx, 'diag_pauli', ['np', [g1, rng.choice([0, 2])], i0, rng.random() < 0.5], nontrivial=('d', it))
+        n3 = rng.randint(2, 4)
+        if it % 4 == 0:
+            do(ctx, 'diag_fresh', [['np', 'torch'][(it // 4) % 2], [gen.rstr(rng, n3, nonzero=True), rng.choice([0, 2])], rng.randrange(n3), rng.random() < 0.5], nontrivial=('df', it))
         n2 = rng.randint(2, 5)
         do(ctx, 'diag_pauli', [rng.choice(['np', 'torch']), [gen.rstr(rng, n2, nonzero=True), rng.choice([0, 2])], rng.randrange(n2), rng.random() < 0.5, rng.choice(['compiled', 'copy', 'compiled_copy'])],
            nontrivial=('dv', it))
